@@ -127,3 +127,28 @@ Fixpoint errs_ok (d : list Z) (e0 : option Z) (tr : list (unit_ * parser)) : Pro
       (perr p' = e0 \/ (fst u = G_Error /\ perr p' = Some (lpos (pz p')))) /\
       errs_ok d (perr p') rest
   end.
+
+(* The state stack as a function of the GrammarTypes returned so far (innermost container first, the bottom
+   element is ValueState): a key turns ObjectKey into ObjectValue, a completed value turns ObjectValue back
+   into ObjectKey, Start pushes, End pops its own kind, ErrorGrammar changes nothing. *)
+Definition valfix (st : list Z) : list Z :=
+  match st with s :: t => (if s =? S_ObjectValue then S_ObjectKey else s) :: t | [] => [] end.
+
+Definition st_next (st : list Z) (g : Z) : option (list Z) :=
+  if g =? G_StartObject then Some (S_ObjectKey :: st)
+  else if g =? G_StartArray then Some (S_Array :: st)
+  else if g =? G_EndObject then
+    match st with s :: t => if s =? S_ObjectKey then Some (valfix t) else None | [] => None end
+  else if g =? G_EndArray then
+    match st with s :: t => if s =? S_Array then Some (valfix t) else None | [] => None end
+  else if g =? G_String then
+    match st with s :: t => if s =? S_ObjectKey then Some (S_ObjectValue :: t) else Some (valfix st) | [] => None end
+  else if (g =? G_Literal) || (g =? G_Number) then
+    match st with s :: t => if s =? S_ObjectKey then None else Some (valfix st) | [] => None end
+  else Some st.
+
+Fixpoint st_run (st : list Z) (gs : list Z) : option (list Z) :=
+  match gs with
+  | [] => Some st
+  | g :: rest => match st_next st g with Some st' => st_run st' rest | None => None end
+  end.
